@@ -1037,7 +1037,9 @@ func (c *suComp) Gen(r *rand.Rand, tier string) []string {
 				s.emit("poll %s", encStr(id))
 			}
 		case x < 33 && len(s.ids) > 0:
-			if id := s.ids[r.Intn(len(s.ids))]; !s.gate[id] {
+			// (the client may half-close while the sender holds a response: the RPC ends, the held
+			// response is dropped — the model agrees since Sub.eof clears `blocked`)
+			if id := s.ids[r.Intn(len(s.ids))]; !s.gate[id] || genProfile == "c08" {
 				s.emit("eof %s", encStr(id))
 			}
 		case x >= 97 && len(s.ids) > 0 && genProfile == "c08" && r.Intn(2) == 0:
